@@ -10,6 +10,7 @@ value of an existing variable changes.  Interval evaluation is sound (C09A_row_*
 -/
 import OratioModel
 import OratioProofs.Lemmas.Lra
+import OratioProofs.Lemmas.LraRel
 
 namespace Oratio
 open Lra
@@ -27,7 +28,13 @@ def LRel.upper (r : LRel) : Bool := r = .lt ∨ r = .leq
 
 /-- a constant answer is justified by bounds: of the rewritten expression, or of its slack variable -/
 theorem C11_constant_only_if_decided (s : Sat) (t : Lra) (r : LRel) (left right : Lin) (l : Lit) (s' : Sat) (t' : Lra) (b : Option Nat)
-    (h : newRel s t r left right = some (l, s', t', b)) (hc : l = Lit.trueLit ∨ l = Lit.falseLit) :
+    (h : newRel s t r left right = some (l, s', t', b)) (hc : l = Lit.trueLit ∨ l = Lit.falseLit)
+    -- CORRECTED: two hypotheses added.  Without them the statement is false in unreachable states: when the SAT
+    -- core has no variable at all the fresh control literal `⟨s.nvars, true⟩` IS `Lit.falseLit` (and `b = some 0`),
+    -- and a literal cached in `s_asrts` can be anything, also a constant, with no bound deciding the relation.
+    -- Both hold in every reachable state: `Sat.init` has variable 0 and `newRel` keeps them
+    -- (`Lra.newRel_sAsrts_nonconst`; they are the first two fields of the invariant `Lra.RelInv`, `Lra.RelInv.newRel`).
+    (hs : 0 < s.nvars) (hA : ∀ e ∈ t.sAsrts, e.2 ≠ Lit.trueLit ∧ e.2 ≠ Lit.falseLit) :
     let e := t.relExpr left right
     let c := t.relConst r left right
     b = none ∧ s' = s ∧
@@ -35,12 +42,49 @@ theorem C11_constant_only_if_decided (s : Sat) (t : Lra) (r : LRel) (left right 
      (r.upper = true ∧ l = Lit.falseLit ∧ (IR.gt (t.lbLin e) c = true ∨ ∃ x, IR.gt (t'.lb x) c = true)) ∨
      (r.upper = false ∧ l = Lit.trueLit ∧ (IR.ge (t.lbLin e) c = true ∨ ∃ x, IR.ge (t'.lb x) c = true)) ∨
      (r.upper = false ∧ l = Lit.falseLit ∧ (IR.lt (t.ubLin e) c = true ∨ ∃ x, IR.lt (t'.ub x) c = true))) := by
-  sorry
+  intro e c
+  have ho : RelOutcome s t r.upper e c l s' t' b := newRel_outcome h
+  cases ho with
+  | decidedExpr h0 hs' ht hb =>
+    refine ⟨hb, hs', ?_⟩
+    rcases relSat_some h0 with ⟨hu, hl, hx⟩ | ⟨hu, hl, hx⟩ | ⟨hu, hl, hx⟩ | ⟨hu, hl, hx⟩
+    · exact Or.inl ⟨hu, hl, Or.inl hx⟩
+    · exact Or.inr (Or.inl ⟨hu, hl, Or.inl hx⟩)
+    · exact Or.inr (Or.inr (Or.inl ⟨hu, hl, Or.inl hx⟩))
+    · exact Or.inr (Or.inr (Or.inr ⟨hu, hl, Or.inl hx⟩))
+  | decidedSlack slack h0 hv h1 hs' hb =>
+    refine ⟨hb, hs', ?_⟩
+    rcases relSat_some h1 with ⟨hu, hl, hx⟩ | ⟨hu, hl, hx⟩ | ⟨hu, hl, hx⟩ | ⟨hu, hl, hx⟩
+    · exact Or.inl ⟨hu, hl, Or.inr ⟨slack, hx⟩⟩
+    · exact Or.inr (Or.inl ⟨hu, hl, Or.inr ⟨slack, hx⟩⟩)
+    · exact Or.inr (Or.inr (Or.inl ⟨hu, hl, Or.inr ⟨slack, hx⟩⟩))
+    · exact Or.inr (Or.inr (Or.inr ⟨hu, hl, Or.inr ⟨slack, hx⟩⟩))
+  | cached slack h0 hv h1 hf hs' hb =>
+    obtain ⟨e0, he0, hl⟩ := findKey_some_mem hf
+    have := hA e0 ((newVarLin_spec hv).1 ▸ he0)
+    rw [hl] at this
+    rcases hc with hc | hc
+    · exact absurd hc this.1
+    · exact absurd hc this.2
+  | fresh slack t1 h0 hv h1 hf hl hs' ht hb =>
+    rcases hc with hc | hc
+    · have h2 : true = false := by rw [hl] at hc; exact congrArg Lit.sign hc
+      cases h2
+    · have h2 : s.nvars = 0 := by rw [hl] at hc; exact congrArg Lit.var hc
+      omega
 
 /-- a non-constant answer is the control literal of the assertion `slack (≤|≥) c` registered under its printed key,
     where `slack` is the variable `newVarLin` gives for the rewritten expression -/
 theorem C11_literal_controls_the_assertion (s : Sat) (t : Lra) (r : LRel) (left right : Lin) (l : Lit) (s' : Sat) (t' : Lra) (b : Option Nat)
-    (h : newRel s t r left right = some (l, s', t', b)) (hc : l ≠ Lit.trueLit ∧ l ≠ Lit.falseLit) :
+    (h : newRel s t r left right = some (l, s', t', b)) (hc : l ≠ Lit.trueLit ∧ l ≠ Lit.falseLit)
+    -- CORRECTED: three hypotheses added.  Without them the last two conjuncts fail in unreachable states: an entry
+    -- of `v_asrts` already keyed by the not-yet-created SAT variable `s.nvars` shadows the new assertion in
+    -- `asrtOf`; and `exprs` can name a variable that has no entry in `a_watches` (then `a_watches[slack]` is not
+    -- written).  All hold in every reachable state: `v_asrts` only gets keys from `Sat.newVar`, `a_watches` has one
+    -- entry per variable and `exprs` names existing variables (`Lra.newRel_vAsrts_lt`; fields `vAsrts_lt`,
+    -- `aWatches_len`, `exprs_lt` of the invariant `Lra.RelInv`, kept by `newRel`: `Lra.RelInv.newRel`).
+    (hV : ∀ e ∈ t.vAsrts, e.1 < s.nvars) (hW : t.vals.length ≤ t.aWatches.length)
+    (hE : ∀ e ∈ t.exprs, e.2 < t.aWatches.length) :
     ∃ slack t1, newVarLin s t (t.relExpr left right) = some (slack, t1) ∧
       let key := "x" ++ toString slack ++ (if r.upper then " <= " else " >= ") ++ irToStr (t.relConst r left right)
       findKey t'.sAsrts key = some l ∧
@@ -48,15 +92,52 @@ theorem C11_literal_controls_the_assertion (s : Sat) (t : Lra) (r : LRel) (left 
        (b = some l.var ∧ findKey t1.sAsrts key = none ∧ l = ⟨s.nvars, true⟩ ∧ s' = (s.newVar).2 ∧
         t'.asrtOf l.var = some ⟨if r.upper then .leq else .geq, l, slack, t.relConst r left right⟩ ∧
         l.var ∈ t'.aWatches.getD slack [])) := by
-  sorry
+  have ho : RelOutcome s t r.upper (t.relExpr left right) (t.relConst r left right) l s' t' b := newRel_outcome h
+  cases ho with
+  | decidedExpr h0 hs' ht hb =>
+    rcases relSat_const h0 with h1 | h1
+    · exact absurd h1 hc.1
+    · exact absurd h1 hc.2
+  | decidedSlack slack h0 hv h1 hs' hb =>
+    rcases relSat_const h1 with h1 | h1
+    · exact absurd h1 hc.1
+    · exact absurd h1 hc.2
+  | cached slack h0 hv h1 hf hs' hb =>
+    exact ⟨slack, t', hv, hf, Or.inl ⟨hb, hf, hs', rfl⟩⟩
+  | fresh slack t1 h0 hv h1 hf hl hs' ht hb =>
+    subst hl ht
+    refine ⟨slack, t1, hv, findKey_emplaceKey_self hf, Or.inr ⟨hb, hf, rfl, hs', ?_, ?_⟩⟩
+    · exact find_append_new (fun e he => hV e ((newVarLin_spec hv).2.1 ▸ he))
+    · show s.nvars ∈ (t1.aWatches.set slack (t1.aWatches.getD slack [] ++ [s.nvars])).getD slack []
+      rw [getD_set_self _ _ _ _ (newVarLin_slack_lt hv hW hE)]
+      exact List.mem_append_right _ (List.mem_singleton.2 rfl)
 
 /-- requesting a relation changes no bound and no value of a variable that existed, and no row of the tableau that
     existed (it can only add a slack variable with its row) -/
 theorem C11_request_changes_nothing (s : Sat) (t : Lra) (r : LRel) (left right : Lin) (l : Lit) (s' : Sat) (t' : Lra) (b : Option Nat)
-    (h : newRel s t r left right = some (l, s', t', b)) :
+    (h : newRel s t r left right = some (l, s', t', b))
+    -- CORRECTED: hypothesis added.  The two bounds of a new slack variable `x = vals.length` are written at the
+    -- indices `2x`, `2x+1` of `c_bounds`; if `c_bounds` had more than two entries per variable (unreachable) these
+    -- would be bounds that existed, and the first conjunct fails.  Reachable states have `bounds.length =
+    -- 2 * vals.length` (field `bounds_len` of the invariant `Lra.RelInv`, kept by `newRel`: `Lra.RelInv.newRel`).
+    (hB : t.bounds.length ≤ 2 * t.vals.length) :
     (∀ i, i < t.bounds.length → t'.bnd i = t.bnd i) ∧ (∀ v, v < t.vals.length → t'.value v = t.value v) ∧
     (∀ e ∈ t.tableau, e ∈ t'.tableau) ∧ t.vals.length ≤ t'.vals.length ∧ t'.layers = t.layers := by
-  sorry
+  have hvar : ∀ {slack : Nat} {t1 : Lra}, newVarLin s t (relE t left right) = some (slack, t1) →
+      (∀ i, i < t.bounds.length → t1.bnd i = t.bnd i) ∧ (∀ v, v < t.vals.length → t1.value v = t.value v) ∧
+      (∀ e ∈ t.tableau, e ∈ t1.tableau) ∧ t.vals.length ≤ t1.vals.length ∧ t1.layers = t.layers :=
+    fun hv => ⟨newVarLin_bnd hv hB, newVarLin_value hv, (newVarLin_spec hv).2.2.2.1, newVarLin_vals_length hv,
+      (newVarLin_spec hv).2.2.1⟩
+  cases newRel_outcome h with
+  | decidedExpr h0 hs' ht hb =>
+    subst ht
+    exact ⟨fun _ _ => rfl, fun _ _ => rfl, fun _ he => he, Nat.le_refl _, rfl⟩
+  | decidedSlack slack h0 hv h1 hs' hb => exact hvar hv
+  | cached slack h0 hv h1 hf hs' hb => exact hvar hv
+  | fresh slack t1 h0 hv h1 hf hl hs' ht hb =>
+    subst ht
+    have h' := hvar hv
+    exact h'
 
 /-- asserting the literal asserts the bound: `propagate(p)` on a true control literal of `x ≤ v` calls
     `assert_upper(x, v)`, on a false one `assert_lower(x, v + ε)`, and symmetrically for `x ≥ v` -/
@@ -65,13 +146,38 @@ theorem C11_propagate_is_the_bound (s : Sat) (t : Lra) (p : Lit) (a : LAsrt) (ha
     (s.value a.b = some true → a.o = .geq → propagateLit s t p = assertLower s t a.x a.v p) ∧
     (s.value a.b = some false → a.o = .leq → propagateLit s t p = assertLower s t a.x (IR.add a.v ⟨R.zero, R.one⟩) p) ∧
     (s.value a.b = some false → a.o = .geq → propagateLit s t p = assertUpper s t a.x (IR.sub a.v ⟨R.zero, R.one⟩) p) := by
-  sorry
+  unfold propagateLit
+  rw [ha]
+  refine ⟨?_, ?_, ?_, ?_⟩ <;> intro h1 h2 <;> simp [h1, h2]
 
 /-- `new_eq` is the conjunction of `≥` and `≤` -/
 theorem C11_eq_is_conjunction (s : Sat) (t : Lra) (left right : Lin) (l : Lit) (s' : Sat) (t' : Lra) (bs : List Nat)
     (h : newEq s t left right = some (l, s', t', bs)) :
     ∃ l1 s1 t1 b1 l2 s2 b2, newRel s t .geq left right = some (l1, s1, t1, b1) ∧ newRel s1 t1 .leq left right = some (l2, s2, t', b2) ∧
       (l, s') = s2.newConj [l1, l2] := by
-  sorry
+  unfold newEq at h
+  split at h
+  · cases h
+  · rename_i l1 s1 t1 b1 h1
+    split at h
+    · cases h
+    · rename_i l2 s2 t2 b2 h2
+      cases h
+      exact ⟨l1, s1, t1, b1, l2, s2, b2, h1, h2, rfl⟩
+
+/-- The hypotheses added (CORRECTED) to the three statements above all follow from the invariant `Lra.RelInv`,
+    which holds initially and is kept by `newRel` (and by `newEq`: `Lra.RelInv.newEq`, `Lra.RelInv.mono`). -/
+theorem C11_hypotheses_of_invariant (s : Sat) (t : Lra) (inv : RelInv s t) :
+    0 < s.nvars ∧ (∀ e ∈ t.sAsrts, e.2 ≠ Lit.trueLit ∧ e.2 ≠ Lit.falseLit) ∧ (∀ e ∈ t.vAsrts, e.1 < s.nvars) ∧
+    t.vals.length ≤ t.aWatches.length ∧ (∀ e ∈ t.exprs, e.2 < t.aWatches.length) ∧
+    t.bounds.length ≤ 2 * t.vals.length :=
+  ⟨inv.nvars_pos, inv.sAsrts_nonconst, inv.vAsrts_lt, Nat.le_of_eq inv.aWatches_len.symm,
+    fun e he => inv.aWatches_len ▸ inv.exprs_lt e he, Nat.le_of_eq inv.bounds_len⟩
+
+theorem C11_invariant_init : RelInv Sat.init Lra.init := RelInv.init
+
+theorem C11_invariant_newRel (s : Sat) (t : Lra) (r : LRel) (left right : Lin) (l : Lit) (s' : Sat) (t' : Lra)
+    (b : Option Nat) (inv : RelInv s t) (h : newRel s t r left right = some (l, s', t', b)) : RelInv s' t' :=
+  inv.newRel h
 
 end Oratio
